@@ -44,7 +44,12 @@ type c15Req struct {
 	C bool `long:"cc" short:"c" required:"true"`
 }
 
-func c15Key(v *V) string { return c15KeyN(v, 1) }
+// c15Key: a one-letter key
+func c15Key(v *V) string {
+	k := v.String(1)
+	v.Assume(k[0] >= 'a' && k[0] <= 'z')
+	return k
+}
 
 // c15KeyN: a key of n lower-case letters or digits
 func c15KeyN(v *V, n int) string {
@@ -161,10 +166,10 @@ func H_C15_twice(v *V) {
 	vals := make([]string, n)
 	lk := v.Shape("lk")
 	for i := range keys {
-		// with lk=2 the keys after the first have two characters (so that two
-		// keys may denote the same number, e.g. 1 and 01)
-		if lk == 2 && i > 0 {
-			keys[i] = c15KeyN(v, 2)
+		// with lk=2 the keys are letters or digits and the second has two
+		// characters (so that two keys may denote the same number, e.g. 1 and 01)
+		if lk == 2 {
+			keys[i] = c15KeyN(v, 1+i%2+i/2)
 		} else {
 			keys[i] = c15Key(v)
 		}
